@@ -48,6 +48,11 @@ func genVec(r *core.Rand, dim int, pool [][]float32, lattice bool) []float32 {
 	switch mode {
 	case 0:
 		scale := math.Pow(10, float64(r.Range(-3, 3)))
+		if r.Chance(0.1) {
+			// very short / very long vectors: legal, non-zero (3e-7 .. 1e12; the squares stay
+			// inside float32's normal range)
+			scale = []float64{3e-7, 1e-6, 1e-8, 1e-12, 1e6, 1e12}[r.Intn(6)]
+		}
 		for i := range v {
 			v[i] = float32(r.Norm() * scale)
 		}
@@ -75,6 +80,9 @@ func genFlat(r *core.Rand, tier string) *flatCase {
 		dim = 1 + r.Intn(3)
 	}
 	c := &flatCase{Dim: dim, Metric: metrics[r.Intn(3)]}
+	if r.Chance(0.01) {
+		return genFlatBig(r, c)
+	}
 	lattice := r.Chance(0.4)
 	nops := r.Range(1, maxOps)
 	var pool [][]float32
@@ -152,6 +160,35 @@ func genFlat(r *core.Rand, tier string) *flatCase {
 		c.Cmds = append(c.Cmds, genFlatSearch(r, dim, pool, ids, next, lattice))
 	}
 	c.Cmds = append(c.Cmds, flatCmd{Op: "vecs"})
+	return c
+}
+
+// genFlatBig: a few thousand vectors in low dimension (block-wise or parallel scans, pooled
+// buffers and size thresholds only matter there), a few removals, then searches aimed at the
+// first and the most recently added vectors, with k = 1, a small k and k <= 0 (a count).
+func genFlatBig(r *core.Rand, c *flatCase) *flatCase {
+	c.Dim = 1 + r.Intn(3)
+	n := []int{1023, 1025, 1026, 1027, 2049, 4097, 4098, 4099, 8195}[r.Intn(9)]
+	var pool [][]float32
+	for i := 1; i <= n; i++ {
+		v := make([]float32, c.Dim)
+		for j := range v {
+			v[j] = float32(r.Norm() * 10)
+		}
+		v[0] += float32(i) // distinct, non-zero
+		pool = append(pool, v)
+		c.Cmds = append(c.Cmds, flatCmd{Op: "add", ID: uint32(i), Vec: core.Bits(v)})
+	}
+	for j := r.Range(0, 3); j > 0; j-- {
+		c.Cmds = append(c.Cmds, flatCmd{Op: "remove", ID: uint32(r.Range(1, n))})
+	}
+	if r.Chance(0.3) {
+		c.Cmds = append(c.Cmds, flatCmd{Op: "flush"})
+	}
+	for _, i := range []int{n - 1, n - 2, n - 3, n - 4, 0, n / 2, n/4 - 1, n / 4, 3 * (n / 4), r.Intn(n)} {
+		k := []int{1, 1, 3, 0, -1}[r.Intn(5)]
+		c.Cmds = append(c.Cmds, flatCmd{Op: "search", Vec: core.Bits(pool[i]), K: k, Agg: "sum"})
+	}
 	return c
 }
 
